@@ -14,7 +14,7 @@ import numpy as np
 PROP = "C11"
 LEVEL = "exploration"
 VARIANTS = ("omp",)
-CASE_TIMEOUT = 400
+CASE_TIMEOUT = 1200
 RULE = ("kind real: zoo crystals (pair model) x meshes (incl. 1 along an axis, shifted) x symmetry on/off: tetrahedron cumulative weights above the top sum to "
         "the number of bands, smearing DOS (normal|Cauchy) integrates to it, total/PDOS non-negative, sum over atoms and over 3N xyz components equals the total at "
         "every frequency (same mesh), direction-projected PDOS >= 0, C tetrahedron-DOS kernel equals the Python iterator; "
